@@ -198,6 +198,15 @@ def eval_user(case):
         V.append(viol('userfile', 'delete_files', 'user file', 'did not remove exactly the named file',
                       f'delete_files([{name!r}]): {w}; left: {sorted(set(now) - set(protected_before))}, '
                       f'lost: {sorted(set(protected_before) - set(now))}'))
+    # ... also when names that do not exist come first in the list (they are skipped, the others still removed)
+    for nm in ('x1.txt', 'x2.txt'):
+        dd.write_txt(nm, 'x', overwrite=True)
+    w, v = outcome_of(lambda: dd.delete_files(['nosuchfile.txt', 'x1.txt', 'nosuch2.txt', 'x2.txt']))
+    now = snapshot.snap('dir.darr')
+    if w == 'raises' or 'x1.txt' in now or 'x2.txt' in now or other not in now:
+        V.append(viol('userfile', 'delete_files', 'list with missing names', 'did not remove exactly the named files',
+                      f"delete_files(['nosuchfile.txt', 'x1.txt', 'nosuch2.txt', 'x2.txt']): {w} {v!r:.60}; "
+                      f"still there: {[n for n in ('x1.txt', 'x2.txt') if n in now]}"))
     rmtree('dir.darr')
     return V, ('user', kind, isjson, content, ow, existing), 1
 
